@@ -23,8 +23,8 @@ fn range(ty: Option<&str>, tag: &str, extra: &str) -> Val {
     })
 }
 
-pub const KINDS: [&str; 34] = [
-    "range_lone_fallback", "range_lone_fallback_u8_var", "fk_arg_component_only", "fk_arg_component_and_text", "fk_lit_count_incl_end", "fk_lit_count_excl_end", "fk_arg_into_comp", "fk_arg_into_plural_form", "plural_unused_form_var", "plural_unused_form_comp", "fk_two_hops_plural", "fk_two_hops_range", "plural_plain", "plural_other_plain", "range_plain", "string", "var_x", "var_y_number", "var_x_date", "comp_b", "comp_i_var_x", "comp_b_var_y", "comp_b_comp_i_var_w", "comp_b_twice", "range_i32", "range_u8", "range_f32", "plural", "fk_rename_plural", "fk_rename_range", "fk_lit_count", "null", "number", "bool",
+pub const KINDS: [&str; 35] = [
+    "fk_lit_count_ordinal", "range_lone_fallback", "range_lone_fallback_u8_var", "fk_arg_component_only", "fk_arg_component_and_text", "fk_lit_count_incl_end", "fk_lit_count_excl_end", "fk_arg_into_comp", "fk_arg_into_plural_form", "plural_unused_form_var", "plural_unused_form_comp", "fk_two_hops_plural", "fk_two_hops_range", "plural_plain", "plural_other_plain", "range_plain", "string", "var_x", "var_y_number", "var_x_date", "comp_b", "comp_i_var_x", "comp_b_var_y", "comp_b_comp_i_var_w", "comp_b_twice", "range_i32", "range_u8", "range_f32", "plural", "fk_rename_plural", "fk_rename_range", "fk_lit_count", "null", "number", "bool",
 ];
 
 /// entries for key `k` of kind `kind` (plural adds two entries)
@@ -69,6 +69,8 @@ pub fn kind_entries(kind: &str, tag: &str) -> Vec<(String, Val)> {
         // two hops: the inner one (helper keys mid_pl / mid_rg) renames the count, the outer passes nothing for it
         "fk_two_hops_plural" => one(s(vec![text(&format!("[{tag}]")), fk("mid_pl")])),
         "fk_two_hops_range" => one(s(vec![text(&format!("[{tag}]")), fk("mid_rg")])),
+        // a literal count to an ORDINAL plural whose forms need different things (2: `two` in en, `other` in fr / de)
+        "fk_lit_count_ordinal" => one(s(vec![text(&format!("[{tag}]")), fk_args("place", vec![("count", FkArg::UInt(2))])])),
         "fk_lit_count" => one(s(vec![fk_args("rg", vec![("count", FkArg::UInt(0))])])),
         // an argument that brings a component of its own (and nothing else that marks it as more than plain text)
         "fk_arg_component_only" => one(s(vec![text(&format!("[{tag}]")), fk_args("hello", vec![("who", FkArg::Str(vec![comp("b", vec![text("World")])]))])])),
@@ -104,6 +106,10 @@ pub fn helper_entries(loc: &str) -> Vec<(String, Val)> {
             }),
         ),
         ("hello".into(), s(vec![text(&format!("[{loc}.hello] ")), var("who")])),
+        ("place_ordinal_one".into(), s(vec![var("count"), text(&format!("[{loc}.place.st]")), var("oa")])),
+        ("place_ordinal_two".into(), s(vec![var("count"), text(&format!("[{loc}.place.nd]")), var("ob")])),
+        ("place_ordinal_few".into(), s(vec![var("count"), text(&format!("[{loc}.place.rd]")), comp("sup", vec![var("oc")])])),
+        ("place_ordinal_other".into(), s(vec![var("count"), text(&format!("[{loc}.place.th]")), var("od")])),
         ("mid_pl".into(), s(vec![fk_args("pl", vec![("count", FkArg::Str(vec![var("n")]))])])),
         ("mid_rg".into(), s(vec![fk_args("rg", vec![("count", FkArg::Str(vec![var("n")]))])])),
     ]
